@@ -197,7 +197,7 @@ func (c *Cond) Wait() {
 		vrt.Point("cond.wait", nil)
 	}
 	if c.n >= maxWaiters {
-		panic("vsync: too many condition waiters")
+		panic(vrt.CapacityError("vsync: too many condition waiters"))
 	}
 	w := &condWaiter{t: vrt.Self()}
 	c.waiters[c.n] = w
